@@ -124,6 +124,13 @@ Theorem C09_refuted_D92 : forall newsys,
 Proof. exact refuted_D92. Qed.
 Print Assumptions C09_refuted_D92.
 
+(* D93 (new subsystem): a function defined in a started context whose startup dispatch raises is never finalised (the
+   exception kept by the eagerly started, finished task pins the frames of its definition): dropping it stops nothing *)
+Theorem C09_refuted_D93 :
+  l_state (w_led (run_ops cfg_only93 ops_D93 world0)) = [(1, 2)] /\ w_led (run_ops cfg_off ops_D93 world0) = ledger0.
+Proof. exact refuted_D93. Qed.
+Print Assumptions C09_refuted_D93.
+
 (* fault point "every dispatch of the function raises" (e.g. @time_active with an impossible date): the watchers die
    at the first occurrence, the function never runs through a trigger, stopping the context leaves the empty ledger *)
 Theorem C09_example_dispatch_fault : forall newsys, let W := run_ops cfg_off (ops_crash newsys) world0 in
